@@ -29,6 +29,8 @@ func runC06(c *Ctx) {
 	c06R7(c)
 	c06R8(c)
 	c06R9(c)
+	c09R2As(c, c.R.Rule("R11", "K13 (= C09.R2) v1 destination acker: surplus acks of a multi-ack response are kept across worker wake-ups (the ack buffer is declared once, outside the signal loop) and acks[0] is indexed only on a non-empty batch — a dropped surplus ack leaves a delivered record open for ever", 1))
+	c06R12(c)
 	msgNotDropped(c, c.R.Rule("R10", "K4 no message forgotten (v1): every stream node function that receives a *Message sends it on, hands it to another function, acks it or nacks it on every path before it exits or receives the next one", 8))
 }
 
@@ -690,4 +692,50 @@ func c06R9(c *Ctx) {
 	if n == 0 {
 		c.R.Fail(r, "FaninNode.trigger: end-of-stream return", c.Pos(fn.Pos()), "no `return nil, nil` found in the trigger closure")
 	}
+}
+
+// c06R12: the deferred-ack delivery goroutine exits only once it has seen, in
+// one critical section, the queue closed and empty.
+func c06R12(c *Ctx) {
+	r := c.R.Rule("R12", "K3/K5 deferred acks are delivered before the source is torn down: Source.deliverDeferredAcks returns only behind the closed==true edge and the len(snapshot)==0 edge, where the closed flag and the queue snapshot are read in the same ackMu critical section", 3)
+	fn := c.SSA(r, pConn, "(*Source).deliverDeferredAcks")
+	qF := c.Field(r, pConn, "Source", "deferredAckQueue")
+	clF := c.Field(r, pConn, "Source", "deferredAckClosed")
+	if fn == nil || qF == nil || clF == nil {
+		return
+	}
+	var rets []ssa.Instruction
+	for _, ret := range kit.Returns(fn) {
+		rets = append(rets, ret)
+	}
+	qLoads := kit.FieldLoads(fn, qF)
+	cLoads := kit.FieldLoads(fn, clF)
+	gClosed := kit.NewGates()
+	for _, l := range cLoads {
+		gClosed.AddEdges(kit.CondEdges(l, true), "closed")
+	}
+	isSnap := func(v ssa.Value) bool {
+		for _, l := range qLoads {
+			if v == l {
+				return true
+			}
+		}
+		return false
+	}
+	gEmpty := kit.NewGates().AddEdges(kit.LenEdges(fn, isSnap, 0, 0), "len(queue snapshot)==0")
+	c.Dominated(r, "deliverDeferredAcks: exits only after the queue was closed", rets, gClosed, "the deferredAckClosed==true edge")
+	c.Dominated(r, "deliverDeferredAcks: exits only with an empty snapshot", rets, gEmpty, "the len(snapshot)==0 edge (nothing was queued when the flag was read)")
+	// same critical section: the flag is read in the block that takes the snapshot, under ackMu, with no Unlock in between
+	ls := kit.Locksets(fn, c.W.StdLockSpec(), nil)
+	okSame := false
+	for _, ql := range qLoads {
+		for _, cl := range cLoads {
+			qi, ok1 := ql.(ssa.Instruction)
+			ci, ok2 := cl.(ssa.Instruction)
+			if ok1 && ok2 && qi.Block() == ci.Block() && containsLock(ls[qi], "recv.ackMu") && containsLock(ls[ci], "recv.ackMu") {
+				okSame = true
+			}
+		}
+	}
+	c.R.Check(okSame, r, "deliverDeferredAcks: flag and snapshot read in one critical section", c.Pos(fn.Pos()), "same ackMu section", "the closed flag is not read in the ackMu critical section that snapshots the queue: Teardown can enqueue the final position and close the queue between the two reads, and the goroutine exits with that position still queued — it is persisted but never acked to the plugin", true)
 }
